@@ -1059,7 +1059,8 @@ def lanes_space(n, full, stagger=False):
     lanes = LANES if full else ["at1", "hop1", "hop2"]
     pop_opts = [None] + lanes
     glob_opts = [None] + [(g, ln) for g in ("clear", "shutdown") for ln in lanes]
-    body_opts = [None, "next", "self", "fresh", "readd", "clear_readd"] if n <= 2 else [None, "next", "readd"]
+    body_opts = ([None, "next", "self", "fresh", "readd", "clear_readd"] if n <= 2 else
+                 [None, "next", "readd"] if n == 3 else [None, "next"])
     for same in ([False, True] if n > 1 else [False]):
         for pops in itertools.product(pop_opts, repeat=n):
             for glob in glob_opts:
@@ -1243,8 +1244,8 @@ def run(ctx: Ctx):
     ctx.extra["exhaustive_scopes"] = (
         "COMPLETE: lanes n=1,2 caches x {absent,6 lanes} per pop x {none, clear|shutdown x 6 lanes} x 6 bodies each "
         "(none, pop neighbour, pop self, add fresh, re-add self, clear+re-add self), shared/distinct identity, n=2 also "
-        "staggered; lanes n=3,4 x 3 racing lanes (at1,hop1,hop2) x 3 bodies (none, pop neighbour, re-add self), n=3 also "
-        "in all 6 add orders; sequences: every op sequence up to length 5 over 6 ops x {t=0, at the deadline}, up to "
+        "staggered; lanes n=3 x 3 racing lanes (at1,hop1,hop2) x 3 bodies (none, pop neighbour, re-add self) in all 6 add "
+        "orders, n=4 x 3 racing lanes x 2 bodies (none, pop neighbour); sequences: every op sequence up to length 5 over 6 ops x {t=0, at the deadline}, up to "
         "length 4 with unequal delays.  SAMPLED (not exhaustive): n=3 with all lanes/bodies/add orders (10000 draws); "
         "which of the n! same-instant expiry orders occurs is whatever the loop's heap yields for the given add order") \
         if ctx.thorough() else (
